@@ -526,8 +526,18 @@ pub fn build<G: GroupApi>(d: &N, rep: &Rep<G::RF>) -> Option<Val<G>>
         }
         Rep::IdNew(x, y) => G::new_jac(x, y, &G::RF::zero()),
     };
+    // The representative is an INPUT of the check that asked for it, not its subject: if the operations used to
+    // construct it (scalar multiplication, subtraction, ...) do not produce a value denoting d*G, that is some
+    // other property's violation. Such a member is dropped from the alphabet (and listed in the evidence), so
+    // that every check alarms only on its own property.
+    if alpha::<G>(&v) != ref_mul::<G>(&d) {
+        SKIPPED.lock().unwrap().push(format!("{} d={:x} rep={}", G::NAME, d, rep.short()));
+        return None;
+    }
     Some(Val { d, rep: rep.clone(), v })
 }
+/// alphabet members that could not be constructed as specified (see `build`)
+pub static SKIPPED: Mutex<Vec<String>> = Mutex::new(Vec::new());
 
 /// the representation alphabet REP for non-identity elements
 pub fn reps_nonid<G: GroupApi>(seed: u64, extra_scales: &[G::RF]) -> Vec<Rep<G::RF>>
